@@ -28,6 +28,10 @@ BASE = {
     "sp2.f90": "submodule (par) subp\ncontains\n  module procedure foo\n    y = x\n  end procedure foo\nend submodule subp\n",
     "sf1.f90": "module fpar\n  interface\n    module function mf(a) result(r)\n      integer :: a\n      real :: r\n    end function mf\n  end interface\nend module fpar\n",
     "sf2.f90": "submodule (fpar) fchild\ncontains\n  module function mf(a) result(r)\n    integer :: a\n    real :: r\n    r = a\n  end function mf\nend submodule fchild\n",
+    "decl2.f90": "integer :: inc_priv\ninteger :: inc_other\n",
+    "m2.f90": "module m2\n  implicit none\n  include 'decl2.f90'\n  private :: inc_priv\nend module m2\n",
+    "p2.f90": "module host2\n  implicit none\n  integer :: inc_priv\ncontains\n  subroutine s2()\n    use m2\n    inc_priv = 1\n"
+              "    inc_other = 2\n  end subroutine s2\nend module host2\n",
     "long.f90": "module longm\n  integer :: a_rather_long_name_for_a_variable = 1234567890 + 1234567890 + 12345\n"
                 "  ! a comment line that is longer than the configured sixty characters, clearly\nend module longm\n",
     "w.f90": "subroutine uses_inc()\n  include 'inc.f90'\n  from_inc = 1\nend subroutine uses_inc\n",
@@ -86,6 +90,9 @@ HISTORIES = {
                                                 ("save", "sf1.f90", BASE["sf1.f90"].replace("mf", "mf_other"))],
     "function_prototype_changes_and_back": [("save", "sf1.f90", BASE_SF1_ARGS), ("query", None, None), ("save", "sf1.f90", BASE["sf1.f90"])],
     "function_prototype_file_deleted": [("save", "sf1.f90", BASE_SF1_ARGS), ("query", None, None), ("delete", "sf1.f90", None)],
+    "private_statement_on_included_entity_removed": [("query", None, None), ("save", "m2.f90", BASE["m2.f90"].replace("  private :: inc_priv\n", ""))],
+    "private_statement_on_included_entity_moved": [("query", None, None),
+                                                   ("save", "m2.f90", BASE["m2.f90"].replace("private :: inc_priv", "private :: inc_other"))],
     "query_then_edit": [("query", None, None), ("save", "t.f90", BASE["t.f90"].replace("old_c", "new_c")),
                         ("save", "u.f90", BASE["u.f90"].replace("old_c", "new_c")),
                         ("save", "p.f90", BASE["p.f90"].replace("old_c", "new_c"))],
